@@ -198,7 +198,7 @@ func (ex *Exec) callCommon(cc *ssa.CallCommon, in *ssa.Call, p token.Pos) *Val {
 			}
 			ex.assertCalls(exprName(cc.Value), anames, args, p)
 		}
-		c.heapHavocAll(ex.st)
+		ex.havocAllKeepingPrivateLocals()
 		ex.bumpAlloc()
 		ex.flushPendingHavoc()
 		return ex.freshResults(cc.Signature().Results(), "dyn")
@@ -387,6 +387,24 @@ func (ex *Exec) callFunction(callee *ssa.Function, args []Val, binds []Val, p to
 		callee.Pkg.Build() // SSA of in-module dependencies is built on demand
 	}
 	ex.assertCalls(callee.String(), paramNames(callee), args, p)
+	{
+		root := ex
+		for root.parent != nil {
+			root = root.parent
+		}
+		if root.ct != nil {
+			for _, pat := range root.ct.Opaque {
+				if calleeMatches(callee.String(), pat) {
+					// over-approximation requested by the contract of the function under verification: the callee's results are
+					// arbitrary well-typed values and its inferred frame is havoc'd; its own contract is neither demanded nor used
+					ex.c.trust(fmt.Sprintf("calls of %s are over-approximated in %s (opaque-call): arbitrary results, inferred frame", pat, root.fn.Name()))
+					ex.havocForCall(callee, args, p)
+					ex.flushPendingHavoc()
+					return ex.freshResults(callee.Signature.Results(), "opaque."+callee.Name())
+				}
+			}
+		}
+	}
 	ct, key := w.contractFor(callee)
 	if ct != nil && !ct.Inline {
 		return ex.applyContract(ct, key, callee.Signature, paramNames(callee), args, p, callee)
@@ -477,7 +495,7 @@ func (ex *Exec) applyContract(ct *Contract, key string, sig *types.Signature, na
 		switch ct.Havoc {
 		case "none":
 		case "all":
-			c.heapHavocAll(ex.st)
+			ex.havocAllKeepingPrivateLocals()
 			ex.bumpAlloc()
 		default:
 			ex.havocExternalArgs(args)
@@ -600,7 +618,7 @@ func (ex *Exec) havocDeclared(ct *Contract, env *Env, args []Val, names []string
 	for _, m := range ct.Modifies {
 		switch {
 		case m == "heap" || m == "all":
-			c.heapHavocAll(ex.st)
+			ex.havocAllKeepingPrivateLocals()
 			ex.bumpAlloc()
 		case m == "alloc":
 			ex.bumpAlloc()
@@ -767,7 +785,7 @@ func (ex *Exec) havocExternalArgs(args []Val) {
 		}
 	}
 	if all {
-		c.heapHavocAll(ex.st)
+		ex.havocAllKeepingPrivateLocals()
 	}
 	ex.bumpAlloc()
 }
@@ -777,7 +795,7 @@ func (ex *Exec) havocForCall(callee *ssa.Function, args []Val, p token.Pos) {
 	c := ex.c
 	w := ex.w
 	if callee == nil {
-		c.heapHavocAll(ex.st)
+		ex.havocAllKeepingPrivateLocals()
 		ex.bumpAlloc()
 		ex.flushPendingHavoc()
 		return
@@ -810,7 +828,7 @@ func (ex *Exec) havocForCall(callee *ssa.Function, args []Val, p token.Pos) {
 				ex.bumpAlloc()
 			} else {
 				c.note("%s: call of %s receives a function value: the callback may run, heap havoc'd", ex.fn.Name(), callee.String())
-				c.heapHavocAll(ex.st)
+				ex.havocAllKeepingPrivateLocals()
 				ex.bumpAlloc()
 			}
 		}
@@ -844,7 +862,7 @@ func (ex *Exec) applyMods(ms *modSet, what string) {
 		ex.havocBig(ms)
 	case ms.all:
 		c.note("%s: %s: inferred modifies = everything", ex.fn.Name(), what)
-		c.heapHavocAll(ex.st)
+		ex.havocAllKeepingPrivateLocals()
 	default:
 		for _, k := range sortedKeys(ms.keys) {
 			c.heapHavoc(ex.st, k)
@@ -1232,4 +1250,65 @@ func (ex *Exec) doCopy(cc *ssa.CallCommon, p token.Pos) *Val {
 	}
 	c.heapSet(ex.st, k, Store(h, sliceArr(dst), na))
 	return &Val{T: n, Ty: types.Typ[types.Int]}
+}
+
+
+// havocAllKeepingPrivateLocals havocs the whole heap except the boxes of local variables that nobody else can reach
+// yet: a local that escapes ONLY by being captured in function literals of this function stays private until the first
+// such literal has been created (boxes of captured variables live in the heap; before the closure exists no callee can
+// hold their address). Needed wherever a parameter is captured by a closure created at the end of a long function.
+func (ex *Exec) havocAllKeepingPrivateLocals() {
+	type saved struct {
+		loc *Loc
+		v   Term
+	}
+	var keep []saved
+	root := ex
+	if root.fn != nil && root.parent == nil {
+		for _, b := range root.fn.Blocks {
+			for _, in := range b.Instrs {
+				a, ok := in.(*ssa.Alloc)
+				if !ok || !a.Heap || root.cells[a] || root.madeClosure[a] || !closureOnlyEscape(a) {
+					continue
+				}
+				v, ok := root.vals[a]
+				if !ok || v.Loc != nil {
+					continue
+				}
+				t := a.Type().(*types.Pointer).Elem()
+				loc := root.locOfRef(v.T, t)
+				if loc.Kind != LBox {
+					continue
+				}
+				keep = append(keep, saved{loc, root.loadLoc(root.st, loc)})
+			}
+		}
+	}
+	ex.c.heapHavocAll(ex.st)
+	for _, k := range keep {
+		root.storeLoc(root.st, k.loc, k.v)
+	}
+	if len(keep) > 0 {
+		ex.c.trust("boxes of local variables that escape only into function literals not created yet are unaffected by callee effects")
+	}
+}
+
+// closureOnlyEscape: every use of the heap-allocated local is a load, a store to it, or a capture by a function literal.
+func closureOnlyEscape(a *ssa.Alloc) bool {
+	refs := a.Referrers()
+	if refs == nil {
+		return false
+	}
+	for _, r := range *refs {
+		switch r := r.(type) {
+		case *ssa.UnOp, *ssa.DebugRef, *ssa.MakeClosure:
+		case *ssa.Store:
+			if r.Addr != a {
+				return false
+			}
+		default:
+			return false
+		}
+	}
+	return true
 }
